@@ -324,3 +324,77 @@ func VH_E_Schema() {
 	vx.Assert(vx.SchemaDiff() == "", "C17:same-schema")
 	vx.Reach("done")
 }
+
+// ---- batches: both backends cache one prepared statement per command kind for the duration of an Execute
+// call; two commands of (possibly different) kinds in one transaction must still each run their own statement.
+
+func vhBatchCmd(i int, sfx string) *t_aio.Command {
+	switch i {
+	case 0:
+		return &t_aio.Command{Kind: t_aio.HeartbeatLocks, HeartbeatLocks: &t_aio.HeartbeatLocksCommand{ProcessId: vx.String("processId" + sfx), Time: vx.Int64("time" + sfx)}}
+	case 1:
+		return &t_aio.Command{Kind: t_aio.HeartbeatTasks, HeartbeatTasks: &t_aio.HeartbeatTasksCommand{ProcessId: vx.String("processId" + sfx), Time: vx.Int64("time" + sfx)}}
+	case 2:
+		return &t_aio.Command{Kind: t_aio.ReleaseLock, ReleaseLock: &t_aio.ReleaseLockCommand{ResourceId: vx.String("resourceId" + sfx), ExecutionId: vx.String("executionId" + sfx)}}
+	case 3:
+		return &t_aio.Command{Kind: t_aio.TimeoutLocks, TimeoutLocks: &t_aio.TimeoutLocksCommand{Timeout: vx.Int64("time" + sfx)}}
+	case 4:
+		return &t_aio.Command{Kind: t_aio.DeleteSchedule, DeleteSchedule: &t_aio.DeleteScheduleCommand{Id: vx.String("id" + sfx)}}
+	case 5:
+		return &t_aio.Command{Kind: t_aio.CompleteTasks, CompleteTasks: &t_aio.CompleteTasksCommand{RootPromiseId: vx.String("root" + sfx), CompletedOn: vx.Int64("completedOn" + sfx)}}
+	case 6:
+		return &t_aio.Command{Kind: t_aio.DeleteCallbacks, DeleteCallbacks: &t_aio.DeleteCallbacksCommand{PromiseId: vx.String("promiseId" + sfx)}}
+	}
+	return &t_aio.Command{Kind: t_aio.ReadLock, ReadLock: &t_aio.ReadLockCommand{ResourceId: vx.String("resourceId" + sfx)}}
+}
+
+func vhAffected(r *t_aio.Result) int64 {
+	switch r.Kind {
+	case t_aio.HeartbeatLocks:
+		return r.HeartbeatLocks.RowsAffected
+	case t_aio.HeartbeatTasks:
+		return r.HeartbeatTasks.RowsAffected
+	case t_aio.ReleaseLock:
+		return r.ReleaseLock.RowsAffected
+	case t_aio.TimeoutLocks:
+		return r.TimeoutLocks.RowsAffected
+	case t_aio.DeleteSchedule:
+		return r.DeleteSchedule.RowsAffected
+	case t_aio.CompleteTasks:
+		return r.CompleteTasks.RowsAffected
+	case t_aio.DeleteCallbacks:
+		return r.DeleteCallbacks.RowsAffected
+	case t_aio.ReadLock:
+		return r.ReadLock.RowsReturned
+	}
+	return -1
+}
+
+func VH_E_Batch() {
+	n := 8
+	k1, k2 := vx.Choose(n), vx.Choose(n)
+	cmds := []*t_aio.Command{vhBatchCmd(k1, ".a"), vhBatchCmd(k2, ".b")}
+	db := vx.DB("postgres")
+	sq, pg := sqlite.VXWorker(db), postgres.VXWorker(db)
+	vx.Havoc()
+	s0 := vx.Snap()
+	vx.SetDialect("sqlite")
+	r1, e1 := sq.Execute([]*t_aio.Transaction{{Commands: cmds}})
+	s1 := vx.Snap()
+	vx.Restore(s0)
+	vx.SetDialect("postgres")
+	r2, e2 := pg.Execute([]*t_aio.Transaction{{Commands: cmds}})
+	s2 := vx.Snap()
+	vx.Assert((e1 == nil) == (e2 == nil), "C17:batch-same-error-or-success")
+	if e1 != nil || e2 != nil {
+		vx.Reach("error")
+		return
+	}
+	vx.Reach("both-ok")
+	vx.Assert(vx.SameDB(s1, s2), "C17:batch-same-database-afterwards")
+	vx.Assert(len(r1) == 1 && len(r2) == 1 && len(r1[0]) == 2 && len(r2[0]) == 2, "C17:batch-one-result-per-command")
+	for i := 0; i < 2; i++ {
+		vx.Assert(r1[0][i].Kind == cmds[i].Kind && r2[0][i].Kind == cmds[i].Kind, "C17:batch-result-kind-is-command-kind")
+		vx.Assert(vhAffected(r1[0][i]) == vhAffected(r2[0][i]), "C17:batch-same-result")
+	}
+}
